@@ -75,10 +75,10 @@ var profiles = map[string]Profile{
 		IKPct: 80, RefPct: 5, DryPct: 3, IKPool: 2, RefPool: 2, TargetPool: 2, FundMax: 30, AmountMax: 5},
 	// C08 cache clause: few texts, tiny cache, two ledgers sharing the compiler
 	"cache": {Name: "cache", MaxClients: 6, MaxOps: 4, MaxGens: 2, MaxLedgers: 2, WKind: [5]int{10, 6, 1, 1, 0},
-		Tpls:  []int{tplWorld, tplOverdraftUnbounded, tplSetAccountMeta, tplVar, tplLit, tplWorld, tplOverdraftUnbounded, tplOrderedVars, tplArith, tplPortionVar, tplMetaVar},
+		Tpls:  []int{tplWorld, tplOverdraftUnbounded, tplSetAccountMeta, tplVar, tplLit, tplWorld, tplOverdraftUnbounded, tplOrderedVars, tplArith, tplPortionVar, tplMetaVar, tplRaw},
 		IKPct: 0, RefPct: 0, DryPct: 5, IKPool: 2, RefPool: 2, TargetPool: 3, FundMax: 100, AmountMax: 4},
 	"cache-shared": {Name: "cache-shared", MaxClients: 5, MaxOps: 4, MaxGens: 2, MaxLedgers: 2, WKind: [5]int{14, 2, 0, 1, 0},
-		Tpls: []int{tplOrderedVars, tplVar, tplArith, tplArith, tplPortionVar, tplMetaVar, tplOverdraftUnbounded}, WorldVarPct: 25, BigCache: true,
+		Tpls: []int{tplOrderedVars, tplVar, tplArith, tplArith, tplPortionVar, tplMetaVar, tplOverdraftUnbounded, tplRaw, tplRaw}, WorldVarPct: 25, BigCache: true,
 		IKPool: 2, RefPool: 2, TargetPool: 3, FundMax: 100, AmountMax: 4},
 	// C10
 	"revert": {Name: "revert", MaxClients: 5, MaxOps: 3, MaxGens: 3, MaxLedgers: 1, WKind: [5]int{4, 4, 10, 1, 0},
@@ -106,6 +106,21 @@ var profiles = map[string]Profile{
 	"preview": {Name: "preview", MaxClients: 4, MaxOps: 4, MaxGens: 2, MaxLedgers: 1, WKind: [5]int{6, 3, 3, 3, 3},
 		Tpls:  []int{tplWorld, tplLit, tplVar, tplAll, tplSetAccountMeta},
 		IKPct: 10, RefPct: 10, DryPct: 50, IKPool: 2, RefPool: 2, TargetPool: 3, FundMax: 20, AmountMax: 6},
+}
+
+// rawScripts: fixed texts, some valid, some not (syntax error, undeclared variable, ill-typed,
+// near-identical pairs): refusals must be the same with and without the cache.
+var rawScripts = []string{
+	"send [USD 1] (\n\tsource = @world\n\tdestination = @a0\n)\n",
+	"send [USD 1] (\n\tsource = @world\n\tdestination = @a1\n)\n",
+	"send [USD 1] (\n\tsource = @world\n\tdestination = @a0\n",
+	"send [USD 1] (\n\tsource = @world\n\tdestination = $nope\n)\n",
+	"vars {\n\tmonetary $m\n}\nsend $m (\n\tsource = $m\n\tdestination = @a0\n)\n",
+	"send [USD 2] (\n\tsource = @world\n\tdestination = {\n\t\t1/2 to @a0\n\t\t2/3 to @a1\n\t}\n)\n",
+	"send [USD 2] (\n\tsource = @world\n\tdestination = {\n\t\t1/2 to @a0\n\t\t1/2 to @a1\n\t}\n)\n",
+	"send [USD 0] (\n\tsource = @world\n\tdestination = @a0\n)\n",
+	"print [USD 1]\n",
+	"",
 }
 
 var bigAmounts = []string{"0", "1", "9223372036854775807", "9223372036854775808", "18446744073709551615", "18446744073709551616", "340282366920938463463374607431768211456"}
@@ -190,6 +205,12 @@ func genOp(t *rapid.T, p *Profile, cfg *Config) Op {
 		}
 		op.Amount = amount("amount")
 		op.Cap = fmt.Sprint(rapid.IntRange(0, p.AmountMax).Draw(t, "cap"))
+		if op.Tpl == tplRaw {
+			op.Raw = rapid.SampledFrom(rawScripts).Draw(t, "raw")
+		}
+		if pct(t, 15, "oddMeta") {
+			op.Value = rapid.SampledFrom(odd).Draw(t, "oddMetaV")
+		}
 	case "postings":
 		n := rapid.IntRange(1, 3).Draw(t, "npost")
 		for i := 0; i < n; i++ {
@@ -296,6 +317,16 @@ func GenInput(t *rapid.T, p *Profile) *Input {
 			}
 			in.Faults = append(in.Faults, f)
 		}
+	}
+	if pct(t, p.CrashPct/3, "hasShutdown") {
+		f := Fault{Kind: "shutdown"}
+		if pct(t, 60, "shutdownAtPoint") {
+			f.Point = rapid.SampledFrom([]string{"store.InsertLogs", "store.InsertLogs.post", "append.done", "append.chained", "run.done"}).Draw(t, "shutdownPoint")
+			f.Nth = rapid.IntRange(1, 6).Draw(t, "shutdownNth")
+		} else {
+			f.Step = rapid.IntRange(1, 200).Draw(t, "shutdownStep")
+		}
+		in.Faults = append(in.Faults, f)
 	}
 	if pct(t, p.CancelBlockedPct, "hasCancelBlocked") {
 		n := rapid.IntRange(1, 3).Draw(t, "ncancel")
